@@ -142,6 +142,11 @@ def build_program(rng, nvals):
         if form == 'lit':
             e = spell(rng, v)
             val = ('lit', v)
+        elif form == 'const' and rng.random() < 0.25 and 0 <= v < (1 << 32):
+            # the value is an external symbol: it comes in through the caller's label table (`XS<k>_<value in hex>` - run_program reads the
+            # table entries off the names), the program itself does not define it
+            e = 'XS%d_%x' % (k, v)
+            val = ('lit', v)
         elif form == 'const':
             body.append(('%s = %s' % (name, spell(rng, v)), None))
             e = name
@@ -268,6 +273,10 @@ def run_program(asm, acc, lines, checks, compress, seedinfo):
         prng.shuffle(names)
         preseed = {'labels': {n: 2 * prng.randrange(0, 6000) for n in names}}
         acc['ctr']['programs_with_leftover_label_table'] += 1
+    xs = dict((m.group(0), int(m.group(1), 16)) for l in lines for m in re.finditer(r'XS\d+_([0-9a-f]+)', l))
+    if xs:
+        preseed = {'labels': dict((preseed or {}).get('labels', {}), **xs)}
+        acc['ctr']['programs_with_external_symbols_in_the_callers_table'] += 1
     lay = monitors.layout(asm, lines, compress, preseed=preseed)
     acc['n'] += 1
     acc['ctr']['programs'] += 1
